@@ -320,7 +320,14 @@ func (r *vRun) jsonChecks(sg *vSignal, m *vMsg, v reflect.Value, pb []byte) {
 		return
 	}
 	// correspondence with the JSON tree model: value -> tree (kind 4), tree -> value (kind 5)
-	r.emit(true, vCaseTermJ(4, m.id, t0.String(), r.s.jvTerm(m, doc)))
+	{
+		backObs := "VNone"
+		if t1.String() != t0.String() {
+			backObs = "VSome (" + t1.String() + ")"
+		}
+		same := err2 == nil && bytes.Equal(pb2, pb)
+		r.emit(true, vCaseTermO(4, m.id, t0.String(), pb, 0, r.s.jvTerm(m, doc), backObs, pb2, same))
+	}
 	r.emit(true, vCaseTermJ(5, m.id, "VSome ("+t1.String()+")", r.s.jvTerm(m, doc)))
 	r.hist["json_model_cases"] += 2
 	for _, fm := range vForms {
@@ -434,6 +441,12 @@ func (r *vRun) jsonResponseChecks(sg *vSignal, m *vMsg, v reflect.Value, api vRe
 			return
 		}
 		n2, m2 := sg.respGet(a2)
+		if parsed, perr := vParseOrdered(doc); perr == nil {
+			w := reflect.New(m.typ).Elem()
+			w.Field(0).Field(0).SetInt(n2)
+			w.Field(0).Field(1).SetString(m2)
+			r.caseOut(true, vCaseTermJ(5, m.id, "VSome ("+r.s.tree(m, w).String()+")", r.s.jvTerm(m, parsed)))
+		}
 		if n2 != rej || m2 != msg {
 			r.out.Oracle(kind, term, fmt.Sprintf("%s response (%s): (%d,%q) comes back as (%d,%q)", sg.name, what, rej, msg, n2, m2))
 			return
